@@ -383,6 +383,31 @@ class Session:
         self._restamp()
         return Result(r.exit_code, r.stdout, r.stderr, exc, tb)
 
+    def gwf_fresh(self, args, input=None, cwd=None, env=None, backend_flag=None, timeout=120):
+        """Fresh-process tier: the same command through a separate interpreter (`python -c 'from gwf.cli import main; main()'`, i.e. what
+        the `gwf` console script does) with the simulator *executables* first on PATH. The simulator state travels through a file."""
+        import subprocess
+
+        from mc.runner import REPO, VERIF
+
+        st = os.path.join(self.dir, "sim.json")
+        with open(st, "w") as f:
+            json.dump(self.sim.s, f)
+        e = dict(os.environ, PATH=os.path.join(VERIF, "bin") + ":/usr/bin:/bin", SIMSCHED_STATE=st, PYTHONPATH=os.path.join(REPO, "src"), PYTHONDONTWRITEBYTECODE="1",
+                 PYTHONHASHSEED=os.environ.get("PYTHONHASHSEED", "0"))
+        e.pop("NO_COLOR", None)
+        e.update(env or {})
+        full = (["-b", backend_flag] if backend_flag else []) + list(args)
+        p = subprocess.run(["/venv/bin/python", "-c", "import sys; from gwf.cli import main; sys.argv[0] = 'gwf'; main()"] + full, cwd=cwd or self.proj, env=e,
+                           input=input if input is not None else "", capture_output=True, text=True, timeout=timeout)
+        with open(st) as f:
+            self.sim.s = json.load(f)
+        os.remove(st)
+        exc = None
+        if "Traceback (most recent call last)" in p.stderr:
+            exc = p.stderr.strip().splitlines()[-1][:300]
+        return Result(p.returncode, p.stdout, p.stderr, exc, None)
+
     def _restamp(self):
         """Give every file gwf touched/created a fresh virtual tick, in the order of the journaled events
         (the kernel clock is too coarse to order them)."""
